@@ -24,7 +24,7 @@ SEGWIT = {"p2wpkh", "p2sh-p2wpkh", "p2wsh", "p2sh-p2wsh", "p2wsh-codesep"}
 TAPS = {"p2tr-script", "p2tr-csa", "p2tr-codesep"}
 
 def mutations(kind):
-    if kind == "bare-if": return [None, "openif", "altcarry", "altown"]
+    if kind == "bare-if": return [None, "openif", "altcarry", "altown", "nosig-true", "nosig-return", "nosig-false", "nosig-depth"]
     if kind == "p2wsh-hashlock": return [None, "wrongkey"]
     m = [None, "wrongkey", "sigbyte", "output", "sequence", "locktime"]
     if kind in SEGWIT or kind in TAPS or kind == "p2tr-key": m.append("amount")
@@ -83,6 +83,10 @@ def gen(chk):
         for wn in sizes:
             c = S.build(rng, k, wn=wn, ht=(0 if k.startswith("p2tr") else 1))
             add("pairs", c, label=c["valid"])
+    # a key-path signature that begins with the annex tag 0x50 (a lone witness item is never an annex), valid and corrupted
+    for mut in (None, "sigbyte"):
+        c = S.build(rng, "p2tr-key", ht=0, enc="sig50", mutate=mut)
+        add("pairs", c, label=c["valid"])
     # real-chain pairs
     real = dict(T.real_txs())
     for name in sorted(real):
